@@ -8,6 +8,68 @@ SUITES = [Suite("prio2-det", prio.prio_generate(0.6, STYLES), prio.prio_project(
 
 SUITES.append(Suite("prio1-det", prio.prio1_generate_with_injection(0.5, 0.0, "fault"), prio.prio1_project("C15"), prio.monitor_prio1("C15"),
                     rule=prio.PRIO1_RULE, version="v1", impl_ints=False, batch_timeout=300, shrink=prio.shrink_prio1))
+# ---- v2 New with dividers that obey the sum rule but not the order of the shares (family 4 with the `moved` divider of Run.v): the
+# constructor must reject exactly the configurations in which SOME priority's share is zero, wherever in the list that priority is
+def _moved_shares(ps_sorted, kind, H, frm, to):
+    from .c18 import ref_fair, ref_rate
+    d = (ref_fair if kind == 0 else ref_rate)(ps_sorted, H)
+    pf, pt = ps_sorted[frm % len(ps_sorted)], ps_sorted[to % len(ps_sorted)]
+    if pf != pt:
+        d[pt] = d.get(pt, 0) + d.get(pf, 0)
+        d[pf] = 0
+    return d
+
+
+def ctor_generate(rng, tier):
+    from ..core import Scenario
+    out = []
+    sets = [[1], [2, 1], [3, 2, 1], [5, 1], [7, 5, 3, 1], [70, 20, 10], [4, 3], [6, 5, 4, 3, 2, 1], [9, 8, 2], [40, 30, 20, 10]]
+    for _ in range(120 if tier == "quick" else 3000):
+        ps = list(rng.choice(sets))
+        rng.shuffle(ps)
+        kind = rng.randrange(2)
+        n = len(ps)
+        H = rng.choice([0, 1, n, n + 1, 2 * n, rng.randrange(1, 40), rng.randrange(1, 200)])
+        if rng.random() < 0.25:
+            enc = [4, kind, H, n] + ps                    # the plain divider
+            frm = to = None
+        else:
+            frm, to = rng.randrange(n), rng.randrange(n)
+            enc = [4, kind, H, n] + ps + [frm, to]
+        out.append(Scenario(enc, "ctor-moved" if frm is not None else "ctor-plain",
+                            {"divider": ["Fair", "Rate"][kind], "H": H, "priorities": ps, "from": frm, "to": to}, nontrivial=H > 0))
+    return out
+
+
+def ctor_monitor(sc, ir):
+    if ir.verdict != "ok":
+        return [("implementation verdict %s" % ir.verdict, None)]
+    m = sc.meta
+    vals = [int(v) for v in ir.vals]
+    ps, H, kind = sorted(m["priorities"], reverse=True), m["H"], 0 if m["divider"] == "Fair" else 1
+    key = "ctor:%s:%d:%s:%s:%s" % (m["divider"], H, ps, m["from"], m["to"])
+    if H == 0:
+        return [] if vals[0] == 2 else [("v2 New returned code %d for HandlersQuantity 0" % vals[0], key)]
+    shares = _moved_shares(ps, kind, H, m["from"] or 0, m["to"] or 0)
+    zero = sorted(p for p in ps if shares.get(p, 0) == 0)
+    fails = []
+    if zero and vals[0] == 0:
+        fails.append("v2 New accepted a configuration in which the share of priorities %s is zero (shares %s)" % (zero, shares))
+    if not zero and vals[0] != 0:
+        fails.append("v2 New rejected (code %d) a configuration in which every share is non-zero (shares %s)" % (vals[0], shares))
+    if zero and vals[0] not in (0, 4):
+        fails.append("v2 New returned code %d instead of ErrHandlersQuantityTooSmall" % vals[0])
+    if len(vals) > 1 and vals[1] == 1:
+        fails.append("accepted, and the discipline does not terminate after every input was closed")
+    return [("%s [%s H=%d priorities %s, increment of position %s moved to position %s]" % (f, m["divider"], H, ps, m["from"], m["to"]), key)
+            for f in fails]
+
+
+SUITES.append(Suite("ctor-v2", ctor_generate, lambda sc, ints: ints[:1], ctor_monitor,
+                    rule="v2 New over ten priority sets in shuffled order x {Fair, Rate} x H in {0, 1, n, n+1, 2n, random} with the plain divider or a "
+                         "sum-preserving custom divider that moves the whole increment of one listed priority to another one (a zero share at any "
+                         "position of the list); non-trivial = H > 0", version="v2"))
+
 ASSUMPTIONS = [
     "model: the scheduling goroutine as a program-counter machine (Prio2.sched_step) over FIFO-list channels; the driver of Prio2Sim.v "
     "(run to a blocked state / settle to a fixpoint) is used only for the correspondence",
